@@ -10,8 +10,14 @@ namespace Jomini.BinTape
 open Jomini
 
 
-/-- a token that can stand in key position: plain, and not the `MixedContainer` marker -/
-def BTok.isKey (t : BTok) : Bool := t.isPlain && (t != .mixed)
+/-- a token that can stand in value position: plain, and neither the `MixedContainer` marker nor an `Equal`
+(the parser pushes those only behind a marker / in key position) -/
+def BTok.isVal (t : BTok) : Bool := t.isPlain && (t != .mixed) && (t != .equal)
+
+/-- a token that can stand in key position: a scalar or id — plain, not the marker, not `Equal`, not an `Rgb`
+(an rgb block is recognised in value position only) -/
+def BTok.isKey (t : BTok) : Bool :=
+  t.isVal && (match t with | .rgb _ _ _ _ => false | _ => true)
 
 /-- where the body of an object stands: complete pairs (`K`: a key comes next), a key waiting for its
 value (`V`), or past a `MixedContainer` marker (`M`: anything goes) -/
@@ -35,7 +41,7 @@ inductive GCont : Tape → Prop
 inductive Body : Tape → Phase → Prop
   | nil : Body [] .K
   | key {l : Tape} {k : BTok} : Body l .K → k.isKey = true → Body (l ++ [k]) .V
-  | valPlain {l : Tape} {v : BTok} : Body l .V → v.isPlain = true → Body (l ++ [v]) .K
+  | valPlain {l : Tape} {v : BTok} : Body l .V → v.isVal = true → Body (l ++ [v]) .K
   | valCont {l c : Tape} : Body l .V → GCont c → Body (l ++ c) .K
   | mixed {l : Tape} : Body l .K → Body (l ++ [.mixed]) .M
   | afterPlain {l : Tape} {x : BTok} : Body l .M → x.isPlain = true → Body (l ++ [x]) .M
@@ -127,7 +133,7 @@ def Coupled (s : PState) : Top → Prop
   | .root => True
   | .arr seg => (InArrS s ∨ s = .arrayValueMixed) ∧ (s = .openFirst → seg = []) ∧
       (s = .openSecond → ∃ k, seg = [k] ∧ k.isKey = true) ∧
-      (s = .arrayValue → ∀ l x, seg = l ++ [x] → x ≠ .mixed)
+      (s = .arrayValue → ∀ l x, seg = l ++ [x] → x.isPlain = true → x.isKey = true)
   | .obj seg ph => ¬ InArrS s ∧ (s = .key → ph = .K ∨ ph = .M) ∧
       (s = .keyValueSeparator → ph = .V ∨ (ph = .M ∧ ∃ l x, seg = l ++ [x] ∧ Body l .M ∧ x.isPlain = true)) ∧
       (s = .objectValue → ph = .V ∨ ph = .M) ∧
@@ -187,16 +193,19 @@ theorem OpenG.appendCont {g : Nat} {pre c : Tape} {below : Top} (h : OpenG g pre
     · exact OpenG.obj hb hcb hl hp (Body.afterCont hs hg)
 
 
-theorem BTok.isKey_plain {x : BTok} (h : x.isKey = true) : x.isPlain = true := by
+theorem BTok.isKey_val {x : BTok} (h : x.isKey = true) : x.isVal = true := by
   simp [BTok.isKey] at h; exact h.1
+theorem BTok.isVal_plain {x : BTok} (h : x.isVal = true) : x.isPlain = true := by
+  simp [BTok.isVal] at h; exact h.1.1
+theorem BTok.isKey_plain {x : BTok} (h : x.isKey = true) : x.isPlain = true := BTok.isVal_plain (BTok.isKey_val h)
 theorem BTok.isKey_ne {x : BTok} (h : x.isKey = true) : x ≠ .mixed := by
-  simp [BTok.isKey] at h; exact h.2
+  have := BTok.isKey_val h; simp [BTok.isVal] at this; exact this.1.2
 
 /-- a scalar lexeme is appended (`next_state` applied) -/
-theorem ginv_scalar {p : Nat} {tape : Tape} {s s' : PState} {x : BTok} (hg : GInv tape p s) (hx : x.isKey = true)
+theorem ginv_scalar {p : Nat} {tape : Tape} {s s' : PState} {x : BTok} (hg : GInv tape p s) (hxp : x.isPlain = true)
+    (hv : s = .objectValue → x.isVal = true) (hk : s ≠ .objectValue → s ≠ .arrayValueMixed → x.isKey = true)
     (hn : nextState s = some s') (hs : s ≠ .objectToArray) : GInv (tape ++ [x]) p s' := by
   obtain ⟨top, ho, hc⟩ := hg
-  have hxp := BTok.isKey_plain hx
   cases ho with
   | root hs' => exact ⟨.root, OpenG.root (GSeq.plain hs' hxp), trivial⟩
   | @arr g p pre seg below hb hcb hl hp hseg =>
@@ -205,11 +214,14 @@ theorem ginv_scalar {p : Nat} {tape : Tape} {s s' : PState} {x : BTok} (hg : GIn
     refine ⟨.arr (seg ++ [x]), OpenG.arr hb hcb hl hp (GSeq.plain hseg hxp), ?_⟩
     obtain ⟨c1, c2, c3, c4⟩ := hc
     rcases c1 with (rfl | rfl | rfl) | rfl <;> simp at hn <;> subst hn
-    · exact ⟨Or.inl (Or.inl rfl), by simp, by simp, fun _ l y h => by
-        have := List.append_inj_right' h (by simp); simp at this; subst this; exact BTok.isKey_ne hx⟩
-    · exact ⟨Or.inl (Or.inr (Or.inr rfl)), by simp, fun _ => ⟨x, by simp [c2 rfl], hx⟩, by simp⟩
-    · exact ⟨Or.inl (Or.inl rfl), by simp, by simp, fun _ l y h => by
-        have := List.append_inj_right' h (by simp); simp at this; subst this; exact BTok.isKey_ne hx⟩
+    · have hx := hk (by decide) (by decide)
+      exact ⟨Or.inl (Or.inl rfl), by simp, by simp, fun _ l y h _ => by
+        have := List.append_inj_right' h (by simp); simp at this; subst this; exact hx⟩
+    · have hx := hk (by decide) (by decide)
+      exact ⟨Or.inl (Or.inr (Or.inr rfl)), by simp, fun _ => ⟨x, by simp [c2 rfl], hx⟩, by simp⟩
+    · have hx := hk (by decide) (by decide)
+      exact ⟨Or.inl (Or.inl rfl), by simp, by simp, fun _ l y h _ => by
+        have := List.append_inj_right' h (by simp); simp at this; subst this; exact hx⟩
     · exact ⟨Or.inr rfl, by simp, by simp, by simp⟩
   | @obj g p pre seg ph below hb hcb hl hp hbody =>
     have e : pre ++ BTok.object g :: seg ++ [x] = pre ++ BTok.object g :: (seg ++ [x]) := by simp
@@ -223,22 +235,22 @@ theorem ginv_scalar {p : Nat} {tape : Tape} {s s' : PState} {x : BTok} (hg : GIn
         by simp [InArrS], by simp, by simp, by simp, by simp, by simp⟩
     · -- objectValue → key
       rcases c3 rfl with rfl | rfl
-      · exact ⟨.obj (seg ++ [x]) .K, OpenG.obj hb hcb hl hp (Body.valPlain hbody hxp),
+      · exact ⟨.obj (seg ++ [x]) .K, OpenG.obj hb hcb hl hp (Body.valPlain hbody (hv rfl)),
           by simp [InArrS], by simp, by simp, by simp, by simp, by simp⟩
       · exact ⟨.obj (seg ++ [x]) .M, OpenG.obj hb hcb hl hp (Body.afterPlain hbody hxp),
           by simp [InArrS], by simp, by simp, by simp, by simp, by simp⟩
     · -- key → keyValueSeparator
       rcases c1 rfl with rfl | rfl
-      · exact ⟨.obj (seg ++ [x]) .V, OpenG.obj hb hcb hl hp (Body.key hbody hx),
+      · exact ⟨.obj (seg ++ [x]) .V, OpenG.obj hb hcb hl hp (Body.key hbody (hk (by decide) (by decide))),
           by simp [InArrS], by simp, by simp, by simp, by simp, by simp⟩
       · exact ⟨.obj (seg ++ [x]) .M, OpenG.obj hb hcb hl hp (Body.afterPlain hbody hxp),
           by simp [InArrS], by simp, fun _ => Or.inr ⟨rfl, seg, x, rfl, hbody, hxp⟩, by simp, by simp, by simp⟩
     · -- keyValueSeparator → objectToArray
       rcases c2 rfl with rfl | ⟨_, l, y, rfl, hl', hy⟩
-      · obtain ⟨l, k, rfl, hl', hk⟩ := hbody.inv_V
-        refine ⟨.obj (l ++ [k] ++ [x]) .K, OpenG.obj hb hcb hl hp (Body.valPlain hbody hxp),
+      · obtain ⟨l, k, rfl, hl', hkk⟩ := hbody.inv_V
+        refine ⟨.obj (l ++ [k] ++ [x]) .K, OpenG.obj hb hcb hl hp (Body.valPlain hbody (BTok.isKey_val (hk (by decide) (by decide)))),
           by simp [InArrS], by simp, by simp, by simp, ?_, by simp⟩
-        intro _; exact ⟨l, k, x, by simp, BTok.isKey_plain hk, hxp, Or.inl ⟨hl', hk⟩⟩
+        intro _; exact ⟨l, k, x, by simp, BTok.isKey_plain hkk, hxp, Or.inl ⟨hl', hkk⟩⟩
       · refine ⟨.obj (l ++ [y] ++ [x]) .M, OpenG.obj hb hcb hl hp (Body.afterPlain (Body.afterPlain hl' hy) hxp),
           by simp [InArrS], by simp, by simp, by simp, ?_, by simp⟩
         intro _; exact ⟨l, y, x, by simp, hy, hxp, Or.inr hl'⟩
@@ -254,9 +266,9 @@ theorem coupled_child {below : Top} {c : Tape} {s' : PState} (hcb : ChildOk belo
   | root => trivial
   | arr seg =>
     have := hs.1 seg rfl; subst this
-    refine ⟨Or.inl (Or.inl rfl), by simp, by simp, fun _ l x h => ?_⟩
+    refine ⟨Or.inl (Or.inl rfl), by simp, by simp, fun _ l x h hpl => ?_⟩
     obtain ⟨i, hi⟩ := snoc_eq_append_cont hc h.symm
-    subst hi; simp
+    subst hi; simp [BTok.isPlain] at hpl
   | obj seg ph =>
     have := hs.2 seg ph rfl; subst this
     rcases hcb with rfl | rfl
@@ -514,7 +526,7 @@ theorem equalArm_ginv {tape : Tape} {parent : Nat} {state : PState} {d : Bytes} 
         simpa using this
   · -- ArrayValueMixed: the `=` is a token
     simp at h; subst h
-    exact ginv_scalar hg (x := .equal) rfl nextState_arrayValueMixed (by decide)
+    exact ginv_scalar hg (x := .equal) rfl (by intro h; cases h) (by intro _ h; exact absurd rfl h) nextState_arrayValueMixed (by decide)
   · -- ArrayValue
     have hp0 := tinv_parent_ne ht (Or.inl rfl)
     obtain ⟨top, hog, hc⟩ := hg
@@ -545,9 +557,7 @@ theorem equalArm_ginv {tape : Tape} {parent : Nat} {state : PState} {d : Bytes} 
           have e3 := List.append_inj_right' e1 (by simp)
           simp at e3; subst e3; subst e2
           obtain ⟨hlp, hseg1⟩ := hseg.unsnoc' hne
-          have hlk : last.isKey = true := by
-            have := hc.2.2.2 rfl seg1 last rfl
-            simp [BTok.isKey, hlp, this]
+          have hlk : last.isKey = true := hc.2.2.2 rfl seg1 last rfl hlp
           split at h
           · cases hso : setParentToObject (pre ++ BTok.array g :: seg1) parent with
             | error e => simp [hso] at h
@@ -595,7 +605,9 @@ theorem scalarArm_ginv {r : Except Err (Tape × Bytes)} {tape : Tape} {parent : 
     simp only at h
     cases hn : nextState state with
     | none => simp [hn] at h
-    | some s' => simp [hn] at h; subst h; exact ginv_scalar hg hx hn hs
+    | some s' =>
+      simp [hn] at h; subst h
+      exact ginv_scalar hg (BTok.isKey_plain hx) (fun _ => BTok.isKey_val hx) (fun _ _ => hx) hn hs
 
 theorem tokenArm_ginv {tape : Tape} {parent : Nat} {state : PState} {d : Bytes} {tok : Nat} {st' : St}
     (h : tokenArm false 0 tape parent state d tok = .ok st') (hs : state ≠ .objectToArray)
@@ -653,7 +665,7 @@ theorem tokenArm_ginv {tape : Tape} {parent : Nat} {state : PState} {d : Bytes} 
       simp [hr] at h; subst h
       obtain ⟨_, rfl⟩ := c12
       obtain ⟨a, b, c, al, rfl⟩ := readRgb_isRgb hr
-      exact ginv_scalar hg (x := .rgb a b c al) rfl nextState_objectValue (by decide)
+      exact ginv_scalar hg (x := .rgb a b c al) rfl (fun _ => rfl) (by intro h; exact absurd rfl h) nextState_objectValue (by decide)
   rw [if_neg c12] at h
   by_cases c13 : tok = L.i64
   · rw [if_pos c13] at h; exact scalarArm_ginv (appendsK_fixed _ _ (by intro _; rfl) _ _) h hs hg
